@@ -6,6 +6,7 @@ import (
 	"strings"
 	"testing"
 	"time"
+	"unicode/utf8"
 
 	schema "github.com/jsightapi/jsight-schema-core"
 	jbytes "github.com/jsightapi/jsight-schema-core/bytes"
@@ -305,7 +306,102 @@ func TestPropNumbers(t *testing.T) {
 	ev.Sample("numbers", Case{Entry: "number", Text: "1e18446744073709551616"})
 }
 
+// ---- (d) arbitrary bytes inside every string position
+
+func judgedStrings(c Case) *ev.Verdict {
+	ev.GuardFast("strings", c)
+	if !utf8.ValidString(c.Text) {
+		ev.NonTrivial("strings", c.Text)
+		ev.Class("strings", "text is not UTF-8")
+		if ev.WantSample("strings") {
+			ev.Sample("strings", c)
+		}
+	}
+	return oracle(c)
+}
+
+func TestPropStrings(t *testing.T) {
+	registerAll()
+	ev.Rapid(t, "strings", ev.N(4000, 40000), func(t *rapid.T) Case {
+		ctx := rapid.SampledFrom(gen.StringContexts).Draw(t, "context")
+		s := gen.HostileString(t, "s")
+		return Case{Entry: "all", Text: strings.ReplaceAll(ctx, "%s", s)}
+	}, judgedStrings)
+	ev.UnguardFast()
+}
+
+// ---- (e) rule-rich projects (every rule, key shortcuts, every additionalProperties value, enum
+// rules with notes, regex types) in every layout: accepted ones go through every conversion
+
+func judgedRich(c Case) *ev.Verdict {
+	ev.GuardFast("rich", c)
+	if c.Project != nil {
+		ev.NonTrivial("rich", c.Project.String())
+		if strings.Contains(c.Project.Root, "additionalProperties") && strings.Contains(c.Project.Root, "@key") {
+			ev.Class("rich", "key shortcut beside additionalProperties")
+		}
+		if ev.WantSample("rich") {
+			ev.Sample("rich", c.Project)
+		}
+	}
+	return oracle(c)
+}
+
+func TestPropRich(t *testing.T) {
+	registerAll()
+	ev.Rapid(t, "rich", ev.N(5000, 40000), func(t *rapid.T) Case {
+		mp := gen.Project(t, gen.ProjectOpts{KeyType: true, RegexType: true, Container: true, EnumNotes: true, Satisfied: rapid.Bool().Draw(t, "satisfied")})
+		sp := mp.Text(gen.Layout(t, gen.LayoutOpts{}))
+		return Case{Entry: "project", Project: &sp}
+	}, judgedRich)
+	ev.UnguardFast()
+}
+
+// ---- (f) nesting depth: the one dimension that neither a length bound nor a tree generator reaches
+
+func nestText(open, close string, depth int, core string) string {
+	return strings.Repeat(open, depth) + core + strings.Repeat(close, depth)
+}
+
+func TestPropDeep(t *testing.T) {
+	registerAll()
+	ev.KeepFirst("deep")
+	idx := 0
+	var n, bad int64
+	depths := []int{17, 18, 19, 20, 31, 32, 33, 36, 40, 63, 64, 65, 100, 128, 129, 200, 256, 257, 500, 1000}
+	if ev.Thorough() {
+		depths = append(depths, 2000, 5000, 20000)
+	}
+	forms := [][3]string{{"[", "]", "1"}, {`{"k":`, "}", "1"}, {`[{"k":`, "}]", "[]"}, {"[\n", "\n]", "@a"}, {`{"k": `, "\n}", `"s" // {optional: true}`},
+		{"[", "", "1"}, {"", "]", "1"}, {"{@a: ", "}", "1"}, {"[1, ", "]", "2"}, {"[", ", 2]", "1"}, {`["a", `, "]", `"b"`}}
+	for _, d := range depths {
+		for _, f := range forms {
+			idx++
+			if !ev.Mine(idx) {
+				continue
+			}
+			c := Case{Entry: "all", Text: nestText(f[0], f[1], d, f[2])}
+			ev.GuardFast("deep", c)
+			n++
+			ev.NonTrivial("deep", fmt.Sprintf("%d/%s", d, f[0]))
+			if v := oracle(c); v != nil && ev.Report("deep", c, v) {
+				bad++
+			}
+		}
+	}
+	ev.UnguardFast()
+	ev.Count("deep", n)
+	ev.Sample("deep", Case{Entry: "all", Text: nestText("[", "]", 40, "1")})
+	ev.Exhaustive("deep", fmt.Sprintf("containers nested to depths %v in %d forms (arrays, objects, mixed, multi-line, with siblings, unbalanced), each given to every entry point", depths, len(forms)))
+	if bad > 0 {
+		t.Errorf("VIOLATION-CANDIDATE deep: %d", bad)
+	}
+}
+
 func registerAll() {
+	ev.Register("strings", judgedStrings)
+	ev.Register("rich", judgedRich)
+	ev.Register("deep", oracle)
 	ev.Register("tokens", oracle)
 	ev.Register("corpus", oracle)
 	ev.Register("projects", judgedProject)
